@@ -18,7 +18,8 @@ passed = set()
 for tc in ET.parse(xml).getroot().iter("testcase"):
     bad = any(ch.tag in ("failure", "error", "skipped") for ch in tc)
     if not bad:
-        passed.add(f"{tc.get('classname')}::{tc.get('name')}")
+        # parametrised ids may embed the checkout path: normalise a scratch worktree to /repo
+        passed.add(f"{tc.get('classname')}::{tc.get('name')}".replace(os.path.realpath(repo), "/repo"))
 os.unlink(xml)
 if extra:
     # partial run: only judge tests that were collected
